@@ -328,6 +328,18 @@ func checkItem(p gengotypes.Package, what string, pos token.Pos, it c12Item) err
 	if len(it.Doc) == 0 {
 		wantTags, wantLines = map[string][]string{}, nil
 	}
+	// what a caller does with an earlier result must not show in a later one: gengo's own Context.Doc rewrites the first
+	// line of the slice it gets in place (it strips the declared name), so do the same and worse to a first result
+	t0, l0 := p.Doc(pos)
+	for i := range l0 {
+		l0[i] = "overwritten by the caller"
+	}
+	for k, v := range t0 {
+		for i := range v {
+			v[i] = "overwritten by the caller"
+		}
+		t0[k+"-added-by-the-caller"] = nil
+	}
 	tags, lines := p.Doc(pos)
 	if len(tags) != len(wantTags) {
 		return fmt.Errorf("%s: Doc tags = %v, want %v (doc written above it: %q)", what, tags, wantTags, it.Doc)
